@@ -313,7 +313,7 @@ def step(ms, op):
     if k == "unfreeze":
         ns.frozen = False
         return ns, ex
-    if k in ("cleanup", "verify", "genfun"):
+    if k in ("cleanup", "verify", "genfun", "export"):
         return ns, ex       # queries / code generation: nothing observable changes
     if k in ("load", "copyfrom"):
         for path, term in op[1]:
